@@ -40,7 +40,9 @@ PROPS = {
     },
     "C18": {
         "lean": ["PnaVerif.Props.Consts", "PnaVerif.Props.C18"],
-        "families": ["chunk", "entry", "roundtrip", "split"],
+        "families": ["chunk", "entry", "roundtrip", "split", "edit"],
+        "cli": True,
+        "ops": {"edit": []},
         "trusted": COMMON_TRUST,
         "text": "bytes_len = encoded length (proved); returned counts compared with bytes written",
     },
